@@ -54,7 +54,7 @@ let parse_op t : op6 =
     Base (OpSelectChange (ids, a, e))
   | "build" -> Base OpBuild
   | "xr" -> let id = num t in let size = num t in AuxXr (id, size)
-  | "x" -> let tag = next t in let n = num t in Aux (n_of_int (match tag with "ref" -> 1 | "coll" -> 2 | _ -> 0), n)
+  | "x" -> let tag = next t in let n = num t in Aux (n_of_int (match tag with "ref" -> 1 | "coll" -> 2 | "sig" -> 3 | _ -> 0), n)
   | x -> failwith ("syntax: op " ^ x)
 
 type scenario = { cfg : config; sc : scn; utxos : (n * value) list; ops : op6 list; za : z; zb : z; pr : prices }
@@ -186,11 +186,11 @@ let () = run_driver (fun toks impl_toks ->
       | o :: r, t :: r' -> (o, t) :: zip r r'
       | o :: r, [] -> (o, bad_rec) :: zip r []
       | [], _ -> [] in
-    let r0 = { r_st = new_state sc.cfg; r_ref = (n_of_int 0, []); r_bal = None; r_coll = false; r_sdh = false } in
+    let r0 = { r_st = new_state sc.cfg; r_ref = (n_of_int 0, []); r_bal = None; r_coll = false; r_plain = true; r_sigs = []; r_sdh = false } in
     let ((rs, r), checked) = run_ops6 sc.sc sc.utxos (zip sc.ops im.i_recs) r0 (n_of_int 0) in
     let st = r.r_st in
     let b = Buffer.create 512 in
-    Buffer.add_string b (Printf.sprintf "ok R %d" (List.length rs));
+    Buffer.add_string b (Printf.sprintf "OKTOKEN R %d" (List.length rs));
     List.iter (fun x -> Buffer.add_string b (" " ^ show_res x)) rs;
     Buffer.add_string b (" S " ^ (match get_fee_if_set st with Some f -> string_of_n f | None -> "~"));
     Buffer.add_string b (Printf.sprintf " %d" (List.length st.s_outputs));
@@ -199,9 +199,22 @@ let () = run_driver (fun toks impl_toks ->
     List.iter (fun (id, _) -> Buffer.add_string b (" " ^ string_of_n id)) st.s_inputs;
     Buffer.add_string b (Printf.sprintf " FIN %s %s " (opt_s (model_full_size sc.sc r im.i_fin_k)) (opt_s (model_min_fee_pub sc.sc r im.i_fin_k)));
     Buffer.add_string b im.i_tail;
-    (if Sys.getenv_opt "C06_COUNT" <> None then prerr_endline (Printf.sprintf "checked %s" (string_of_n checked)));
+    let cb = bz_of_n checked in
+    let two20 = BZ.shift_left BZ.one 20 in
+    let n_meas = BZ.to_int (BZ.rem cb two20) in
+    let n_conc = BZ.to_int (BZ.rem (BZ.shift_right cb 20) two20) in
+    let n_cal = BZ.to_int (BZ.shift_right cb 40) in
+    (if Sys.getenv_opt "C06_COUNT" <> None then prerr_endline (Printf.sprintf "checked measured %d concrete %d calibrated %d" n_meas n_conc n_cal));
+    (* how the min_fee answers of this scenario were obtained: the first token of the model line (the comparison in
+       checks/C06.py reads it as "ok") so that the evidence's case distribution counts the classes *)
+    let how = if n_conc > 0 && n_meas = 0 && n_cal = 0 then "ok+concrete"
+      else if n_conc > 0 then "ok+concrete+measured"
+      else if n_cal > 0 then "ok+calibrated"
+      else if n_meas > 0 then "ok+measured" else "ok+nofee" in
     let (uns, slack, bind) = (match r.r_bal with
         | Some (s, bd) -> (im.i_unsafe, s, bd)
         | None -> (None, true, false)) in
     let v = judge_tx sc.za sc.zb sc.pr im.i_pol im.i_built uns slack bind im.i_full in
-    (Buffer.contents b, show_verdict v))
+    let line = Buffer.contents b in
+    let line = how ^ String.sub line 7 (String.length line - 7) in
+    (line, show_verdict v))
